@@ -374,3 +374,29 @@ func alignAllBytes(r *core.Run, levenshtein bool, params []string, judge func(c 
 			return out
 		})
 }
+
+// alignBufferReuse: both sequences live in one caller buffer ("a|b") that is rewritten in place between
+// the calls; each call must give what a call on fresh copies gives (see bufreuse.go).
+func alignBufferReuse(r *core.Run, matrices []string) {
+	var fns []string
+	for _, mn := range matrices {
+		fns = append(fns, "Global "+mn, "Local "+mn)
+	}
+	var inputs []string
+	for _, a := range []string{"", "A", "AB", "ABA", "BBAB", "ABAB"} {
+		for _, b := range []string{"", "B", "AB", "BAB", "ABAB", "BBAB"} {
+			inputs = append(inputs, a+"|"+b)
+		}
+	}
+	bufferReuse(r, inputs, fns, func(fn string, in []byte) string {
+		cut := bytes.IndexByte(in, '|')
+		a, b := in[:cut], in[cut+1:]
+		m := matrixByName(fn[strings.IndexByte(fn, ' ')+1:])
+		if strings.HasPrefix(fn, "Global") {
+			st, sc := align.Global(a, b, m)
+			return fmt.Sprint(stepsBytes(st), sc)
+		}
+		st, ai, bi, sc := align.Local(a, b, m)
+		return fmt.Sprint(stepsBytes(st), ai, bi, sc)
+	})
+}
